@@ -236,3 +236,18 @@ def run(ctx, model_ok):
                 lbad.add(src)
                 ctx.violation(f"declarations of a loop iteration ({key[0]}, {key[1]}): expected stdout {out!r} and status {st}", src, {"cli": c})
     tie.report_disagreements(ctx, [d for d in ldis if d[0] not in lbad], "loop_iteration_scope")
+
+    # through the command line itself (the driver reads the file): positions in a script that starts with a `#!` line, a
+    # blank first line, CR LF line ends
+    drv = [
+        ("#!/usr/bin/env seed\nx := 1\nx := 2\n", "t.sd:3:1: 'x' is already defined in the current scope at [2:1]\n"),
+        ("#!/usr/bin/env seed\nfn bump() {\n    total += 1\n}\nbump()\n", "t.sd:3:5: in 'bump': 'total' is not defined\nStacktrace:\n  t.sd:5:1: in '<root>'\n"),
+        ("\n\nx := 1\n{\n    x := 2\n    x := 3\n}\n", "t.sd:6:5: 'x' is already defined in the current scope at [5:5]\n"),
+        ("x := 1\r\nx := 2\r\n", "t.sd:2:1: 'x' is already defined in the current scope at [1:1]\n"),
+        ("#!/usr/bin/env seed\n# second comment\nprint(y)\n", "t.sd:3:7: 'y' is not defined\n"),
+    ]
+    for (src, want), r in zip(drv, core.cli_batch([d[0] for d in drv])):
+        ctx.nontrivial(("driver-positions", src[:12]))
+        ctx.count("driver_positions:cli", 1)
+        if r["status"] != "103" or r["stderr"] != want or r["stdout"] != "":
+            ctx.violation(f"a name diagnostic through the command line: expected {want!r}", src, {"cli": r})
